@@ -5,6 +5,7 @@ import (
 	"go/types"
 	"sort"
 	"strings"
+	"sync"
 
 	"golang.org/x/tools/go/ssa"
 )
@@ -514,10 +515,120 @@ func ReturnsOf(fn *ssa.Function) []*ssa.Return {
 			if in.Block().Comment == "recover" {
 				return
 			}
+			if sp := SplitOf(r); sp != nil {
+				out = append(out, sp.Nil, sp.Err)
+				return
+			}
 			out = append(out, r)
 		}
 	})
 	return out
+}
+
+// RawReturnsOf lists the return instructions as written (no logical split of
+// tail returns); for rules about pass-through wrappers.
+func RawReturnsOf(fn *ssa.Function) []*ssa.Return {
+	var out []*ssa.Return
+	EachInstr(fn, func(in ssa.Instruction) {
+		if r, ok := in.(*ssa.Return); ok && in.Block().Comment != "recover" {
+			out = append(out, r)
+		}
+	})
+	return out
+}
+
+// Tail returns. "return f()" whose last result is f's error is the spelling
+// "if err := f(); err != nil { return err }; return nil" with the branch left
+// to the caller. Rules reason about "the nil return" and "the error return",
+// so such a return is presented as two logical returns: Nil (the error result
+// replaced by the constant nil, reached with every predicate on that error
+// evaluated false) and Err (reached with it evaluated true). Both are
+// synthetic *ssa.Return values that stand for the original instruction; the
+// path automaton records their states when it reaches the original.
+type ReturnSplit struct {
+	Orig     *ssa.Return
+	Nil, Err *ssa.Return
+	Idx      int       // index of the error result
+	Val      ssa.Value // the call result passed through
+}
+
+var (
+	splitMu    sync.Mutex // the self-test analyses several programs in parallel
+	splitCache = map[*ssa.Return]*ReturnSplit{}
+	synthOrig  = map[*ssa.Return]*ssa.Return{}
+)
+
+// OrigReturn maps a synthetic logical return to the instruction it stands
+// for (identity for real returns).
+func OrigReturn(r *ssa.Return) *ssa.Return {
+	splitMu.Lock()
+	defer splitMu.Unlock()
+	if o, ok := synthOrig[r]; ok {
+		return o
+	}
+	return r
+}
+
+var errorType = types.Universe.Lookup("error").Type()
+
+// SplitOf returns the logical split of a tail return, or nil.
+func SplitOf(ret *ssa.Return) *ReturnSplit {
+	splitMu.Lock()
+	defer splitMu.Unlock()
+	if sp, ok := splitCache[ret]; ok {
+		return sp
+	}
+	var sp *ReturnSplit
+	defer func() { splitCache[ret] = sp }()
+	if _, synthetic := synthOrig[ret]; synthetic || len(ret.Results) == 0 {
+		return nil
+	}
+	vals := realReturnValues(ret)
+	idx := len(vals) - 1
+	v := vals[idx]
+	if !types.Identical(v.Type(), errorType) {
+		return nil
+	}
+	var call *ssa.Call
+	switch x := v.(type) {
+	case *ssa.Call:
+		call = x
+	case *ssa.Extract:
+		c, ok := x.Tuple.(*ssa.Call)
+		if !ok {
+			return nil
+		}
+		call = c
+	default:
+		return nil
+	}
+	// error constructors never return nil: "return fmt.Errorf(…)" is an error return
+	if f, ok := call.Call.Value.(*ssa.Function); ok {
+		switch f.String() {
+		case "fmt.Errorf", "errors.New", "errors.Join":
+			return nil
+		}
+	}
+	// only a value that no branch has tested: "err := f(); if err != nil {…}; return err"
+	// already has its own branch
+	if refs := v.Referrers(); refs != nil {
+		for _, r := range *refs {
+			if b, ok := r.(*ssa.BinOp); ok && (b.Op == token.NEQ || b.Op == token.EQL) {
+				return nil
+			}
+		}
+	}
+	mk := func(repl ssa.Value) *ssa.Return {
+		res := append([]ssa.Value{}, vals...)
+		res[idx] = repl
+		r := &ssa.Return{Results: res}
+		synthOrig[r] = ret
+		return r
+	}
+	sp = &ReturnSplit{Orig: ret, Idx: idx, Val: v}
+	sp.Nil = mk(ssa.NewConst(nil, errorType))
+	sp.Err = mk(v)
+	return sp
 }
 
 // Reaches reports whether block b can reach block t (b == t counts).
@@ -547,6 +658,16 @@ func Reaches(b, t *ssa.BasicBlock) bool {
 // them; the value returned (as seen by the body) is then the last store into
 // the cell in the returning block.
 func ReturnValues(ret *ssa.Return) []ssa.Value {
+	splitMu.Lock()
+	_, synthetic := synthOrig[ret]
+	splitMu.Unlock()
+	if synthetic {
+		return append([]ssa.Value{}, ret.Results...)
+	}
+	return realReturnValues(ret)
+}
+
+func realReturnValues(ret *ssa.Return) []ssa.Value {
 	out := make([]ssa.Value, len(ret.Results))
 	for i, rv := range ret.Results {
 		out[i] = rv
